@@ -63,6 +63,26 @@ CHECKS["C09"] = (
     "DESIGN.md 6 (C09)",
 )
 
+CHECKS["C04"] = (
+    "model_checking",
+    "bounded-exhaustive enumeration of static definitions x layout mode x pointer width; reference layout model cross-checked against ctypes on every definition; real parser/reader/writer compared with it",
+    "All definitions of <=2 members over 42 fixed-size layout atoms and <=3 over the 12 (size, alignment) classes (thorough 3/5), packed and "
+    "aligned, four pointer widths: len(T), alignment and every field offset equal the reference model, which is itself compared with "
+    "ctypes.Structure/Union (x86-64 C ABI) for every definition expressible in C scalars; sizeof(S) inside array sizes and #define, bytes "
+    "consumed by parsing, len(T().dumps()) and len(T(data).dumps()) all agree, and the values are read where the layout says.",
+    "DESIGN.md 6 (C04)",
+)
+CHECKS["C06"] = (
+    "model_checking",
+    "bounded-exhaustive enumeration of bit-field width sequences x storage types x neighbour contexts x unit contents x written values against the reference bit-slice model",
+    "All width sequences of length <=3 (thorough 4) for 15 storage types (incl. signed, 24/48-bit, char, enum, flag) and mixed-storage "
+    "sequences, in 5 (thorough 8) neighbour contexts, both endiannesses, layouts and readers: every 8-bit unit content (all 256) and "
+    "single-/two-bit/all-ones patterns of wider units must parse to the model's slices (non-overlap, order, range), straddling "
+    "definitions must be rejected, and every product of per-field values {0,1,max,1010..} must be written as the model packs it and "
+    "parse back.",
+    "DESIGN.md 6 (C06)",
+)
+
 NOT_APPLICABLE = {}
 
 
